@@ -10,35 +10,36 @@ Open Scope string_scope.
 Open Scope Z_scope.
 Open Scope list_scope.
 
-(* every id a wrapper carries — its own and those of the components an accessor can hand out — is at most c *)
-Definition ib (c : Z) (i : option Z) : Prop := match i with Some k => k <= c | None => True end.
-Fixpoint wb (c : Z) (w : wrap) : Prop :=
+(* every id a wrapper carries — its own and those of the components an accessor can hand out — lies in (lo, c]:
+   at most the counter, and above the counter [lo] the trace started from *)
+Definition ib (lo c : Z) (i : option Z) : Prop := match i with Some k => lo < k <= c | None => True end.
+Fixpoint wb (lo c : Z) (w : wrap) : Prop :=
   match w with
-  | WScalar _ i _ | WArray _ _ i | WTuple _ _ i => ib c i
+  | WScalar _ i _ | WArray _ _ i | WTuple _ _ i => ib lo c i
   | WNTuple vals i =>
-      ib c i /\ (fix all (l : list wrap) : Prop := match l with [] => True | v :: r => wb c v /\ all r end) vals
+      ib lo c i /\ (fix all (l : list wrap) : Prop := match l with [] => True | v :: r => wb lo c v /\ all r end) vals
   | WObject vals i =>
-      ib c i /\ (fix all (l : list (string * wrap)) : Prop :=
-                   match l with [] => True | kv :: r => wb c (snd kv) /\ all r end) vals
+      ib lo c i /\ (fix all (l : list (string * wrap)) : Prop :=
+                   match l with [] => True | kv :: r => wb lo c (snd kv) /\ all r end) vals
   end.
 
-Lemma wb_ntuple c vals i : wb c (WNTuple vals i) <-> ib c i /\ Forall (wb c) vals.
+Lemma wb_ntuple lo c vals i : wb lo c (WNTuple vals i) <-> ib lo c i /\ Forall (wb lo c) vals.
 Proof.
   simpl. split; intros [H1 H2]; (split; [exact H1|]).
   - induction vals as [|v r IH]; [constructor|]. destruct H2 as [A B]. constructor; auto.
   - induction H2 as [|v r A _ IH]; simpl; auto.
 Qed.
-Lemma wb_object c vals i : wb c (WObject vals i) <-> ib c i /\ Forall (fun kv => wb c (snd kv)) vals.
+Lemma wb_object lo c vals i : wb lo c (WObject vals i) <-> ib lo c i /\ Forall (fun kv => wb lo c (snd kv)) vals.
 Proof.
   simpl. split; intros [H1 H2]; (split; [exact H1|]).
   - induction vals as [|v r IH]; [constructor|]. destruct H2 as [A B]. constructor; auto.
   - induction H2 as [|v r A _ IH]; simpl; auto.
 Qed.
 
-Lemma ib_mono c c' i : c <= c' -> ib c i -> ib c' i.
+Lemma ib_mono lo c c' i : c <= c' -> ib lo c i -> ib lo c' i.
 Proof. destruct i; simpl; intros; [lia | exact I]. Qed.
 
-Lemma wb_mono c c' (Hc : c <= c') : forall w, wb c w -> wb c' w.
+Lemma wb_mono lo c c' (Hc : c <= c') : forall w, wb lo c w -> wb lo c' w.
 Proof.
   fix IH 1. intros w. destruct w as [t i v | e sz i | l r i | vals i | vals i]; simpl.
   - apply ib_mono; exact Hc.
@@ -50,19 +51,32 @@ Proof.
     revert H2. induction vals as [|v vals IHv]; simpl; [auto|]. intros [A B]. split; [apply IH; exact A | apply IHv; exact B].
 Qed.
 
-Lemma wb_wid c w i : wb c w -> wid w = Some i -> i <= c.
+Lemma wb_wid lo c w i : wb lo c w -> wid w = Some i -> lo < i <= c.
 Proof. destruct w; simpl; intros H E; subst; simpl in H; try tauto; destruct H; assumption. Qed.
 
-Lemma wb_with_id c w i : i <= c -> wb c w -> wb c (with_id w i).
+Lemma wb_with_id lo c w i : lo < i <= c -> wb lo c w -> wb lo c (with_id w i).
 Proof. destruct w; simpl; intros Hi H; try exact Hi; destruct H as [_ H]; split; auto. Qed.
 
-Definition env_b (ρ : env) (c : Z) : Prop := forall x w, assoc x ρ = Some (BWrap w) -> wb c w.
+Section Lower.
+Variable lo : Z.        (* the counter the trace started from: every id it creates or uses is above it *)
+
+Definition env_b (ρ : env) (c : Z) : Prop := forall x w, assoc x ρ = Some (BWrap w) -> wb lo c w.
+Definition env_f (ρ : env) : Prop := forall x fr, assoc x ρ = Some (BFun fr) -> lo < fn_id fr.
 
 Lemma env_b_mono ρ c c' : c <= c' -> env_b ρ c -> env_b ρ c'.
 Proof. intros Hc H x w Hx. eapply wb_mono; [exact Hc | eapply H; eauto]. Qed.
 
 (* ---- growth with acyclic new entries *)
-Definition acyclic_entry (e : Z * arec) : Prop := Forall (fun c => c < fst e) (child_operations (r_node (snd e))).
+Definition extra_refs (n : ast) : list Z :=
+  match n with
+  | AMap _ fn | AReduce _ fn _ | ACall _ fn | AArg _ fn => [fn]
+  | AFunction _ args c => c :: args
+  | _ => []
+  end.
+(* a new entry refers, as operands, to older entries of this trace only, and to nothing older than the trace *)
+Definition acyclic_entry (e : Z * arec) : Prop :=
+  Forall (fun c => lo < c < fst e) (child_operations (r_node (snd e)))
+  /\ Forall (fun c => lo < c) (extra_refs (r_node (snd e))).
 Definition grow_acy (s s1 : tstate) : Prop :=
   counter s <= counter s1 /\
   exists new, store s1 = new ++ store s /\ Forall (fun e => (counter s < fst e <= counter s1) /\ acyclic_entry e) new.
@@ -90,7 +104,7 @@ Proof.
       rewrite lookup_app_old in H; [exact (Ho k r H c Hc)|].
       intros e He. rewrite Forall_forall in F. specialize (F e He). lia.
     + destruct (lookup_app_new _ _ _ _ H E0) as (rec & Hin & ->).
-      rewrite Forall_forall in F. destruct (F _ Hin) as [_ Ha]. unfold acyclic_entry in Ha. simpl in *.
+      rewrite Forall_forall in F. destruct (F _ Hin) as [_ [Ha _]]. simpl in *.
       rewrite Forall_forall in Ha. apply Ha. exact Hc.
   - intros k r H. rewrite E in H.
     destruct (lookup k (store s)) as [r0|] eqn:E0.
@@ -104,24 +118,26 @@ Variable GG : genv.
 Variable ρ : env.
 Variable b : Z.                       (* every operand taken from the environment carries ids <= b *)
 Hypothesis Hρ : env_b ρ b.
-Let Φ : ast -> Prop := fun n => Forall (fun c => c <= b) (child_operations n).
+Hypothesis Hρf : env_f ρ.
+Hypothesis Hlo : lo <= b.
+Let Φ : ast -> Prop := fun n => Forall (fun c => lo < c <= b) (child_operations n) /\ Forall (fun c => lo < c) (extra_refs n).
 
 Lemma G_acy s s1 : b <= counter s -> G Φ (counter s) s s1 -> grow_acy s s1.
 Proof.
   intros Hb [H1 (new & E & F)]. split; [exact H1|]. exists new. split; [exact E|].
-  eapply Forall_impl; [|exact F]. intros e [A B]. split; [exact A|].
-  unfold acyclic_entry. eapply Forall_impl; [|exact B]. intros c Hc. simpl in Hc. lia.
+  eapply Forall_impl; [|exact F]. intros e [A [B1 B2]]. split; [exact A|].
+  split; [|exact B2]. eapply Forall_impl; [|exact B1]. intros c Hc. simpl in Hc. lia.
 Qed.
 
 (* an action returning a wrapper: the store grows by Φ-entries and the wrapper is bounded by the final counter *)
 Definition AW (c0 : Z) (ids : list Z) (m : M wrap) : Prop :=
-  forall s a s1, ok c0 ids s -> m s = Ok (a, s1) -> G Φ c0 s s1 /\ wb (counter s1) a.
+  forall s a s1, ok c0 ids s -> m s = Ok (a, s1) -> G Φ c0 s s1 /\ wb lo (counter s1) a.
 
 Lemma AW_fail c0 ids e : AW c0 ids (fail e).
 Proof. intros s a s1 _ H. discriminate H. Qed.
 
 Lemma AW_ret c0 ids w :
-  (forall c, c0 <= c -> (forall i, In i ids -> i <= c) -> wb c w) -> AW c0 ids (ret w).
+  (forall c, c0 <= c -> (forall i, In i ids -> c0 < i <= c) -> wb lo c w) -> AW c0 ids (ret w).
 Proof.
   intros Hw s a s1 [H1 H2] H. unfold ret in H. inversion H; subst. split; [apply G_refl|].
   apply Hw; [exact H1|]. intros i Hi. rewrite Forall_forall in H2. specialize (H2 i Hi). lia.
@@ -143,17 +159,17 @@ Proof.
 Qed.
 
 Lemma AW_bind_get_wrap c0 ids x (k : wrap -> M wrap) :
-  (forall w, wb b w -> AW c0 ids (k w)) -> AW c0 ids (mbind (get_wrap ρ x) k).
+  (forall w, wb lo b w -> AW c0 ids (k w)) -> AW c0 ids (mbind (get_wrap ρ x) k).
 Proof.
-  intros Hk. eapply (AW_bind_pure _ _ _ _ (wb b)); [|exact Hk].
+  intros Hk. eapply (AW_bind_pure _ _ _ _ (wb lo b)); [|exact Hk].
   intros s a s1 H. unfold get_wrap in H. destruct (assoc x ρ) as [[w|f]|] eqn:E; try discriminate.
   unfold ret in H. inversion H; subst. split; [reflexivity | eapply Hρ; eauto].
 Qed.
 
 Lemma AW_bind_get_wraps c0 ids xs (k : list wrap -> M wrap) :
-  (forall ws, Forall (wb b) ws -> AW c0 ids (k ws)) -> AW c0 ids (mbind (get_wraps ρ xs) k).
+  (forall ws, Forall (wb lo b) ws -> AW c0 ids (k ws)) -> AW c0 ids (mbind (get_wraps ρ xs) k).
 Proof.
-  intros Hk. eapply (AW_bind_pure _ _ _ _ (Forall (wb b))); [|exact Hk].
+  intros Hk. eapply (AW_bind_pure _ _ _ _ (Forall (wb lo b))); [|exact Hk].
   intros s ws s1 H. destruct (get_wraps_spec _ _ _ _ _ H) as [-> F]. split; [reflexivity|].
   clear H. induction F as [|x w xs ws Hx _ IH]; constructor; auto. eapply Hρ; eauto.
 Qed.
@@ -194,23 +210,32 @@ Proof.
   eapply Forall_impl; [|exact H2]. intros i Hi. simpl in *. lia.
 Qed.
 
-Lemma AW_emit_scalar c0 ids t id n : In id ids -> Φ n -> AW c0 ids (emit_scalar t id n).
+Lemma AW_emit_scalar c0 ids t id n : lo <= c0 -> In id ids -> Φ n -> AW c0 ids (emit_scalar t id n).
 Proof.
-  intros Hin Hn. unfold emit_scalar. destruct (fst t); try apply AW_fail;
-    (apply AW_bind_gm; [apply Gm_put; assumption|]; intros _; apply AW_ret; intros c Hc Hi; simpl; apply Hi; exact Hin).
+  intros Hl Hin Hn. unfold emit_scalar. destruct (fst t); try apply AW_fail;
+    (apply AW_bind_gm; [apply Gm_put; assumption|]; intros _; apply AW_ret; intros c Hc Hi; simpl;
+     specialize (Hi id Hin); lia).
 Qed.
 
-Lemma Φ_literal v i : Φ (ALiteral v i).  Proof. constructor. Qed.
+Lemma Φ_literal v i : Φ (ALiteral v i).  Proof. split; constructor. Qed.
 
-Lemma AW_new_literal c0 ids bs v : AW c0 ids (new_literal bs v).
+Lemma AW_new_literal c0 ids bs v : lo <= c0 -> AW c0 ids (new_literal bs v).
 Proof.
-  unfold new_literal. cbv zeta. apply AW_bind_alloc. intro id.
+  intros Hl. unfold new_literal. cbv zeta. apply AW_bind_alloc. intro id.
   apply AW_bind_gm; [apply Gm_lit_index|]. intro idx.
   apply AW_bind_gm; [apply Gm_put; [left; reflexivity | apply Φ_literal]|]. intros _.
-  apply AW_ret. intros c Hc Hi. simpl. apply Hi. left. reflexivity.
+  apply AW_ret. intros c Hc Hi. simpl. specialize (Hi id (or_introl eq_refl)). lia.
 Qed.
 
-Lemma ids_bounded ws ids : Forall (wb b) ws -> Forall2 has_id ws ids -> Forall (fun c => c <= b) ids.
+Lemma AW_bind_get_fun c0 ids f (k : fnrec -> M wrap) :
+  (forall fr, lo < fn_id fr -> AW c0 ids (k fr)) -> AW c0 ids (mbind (get_fun ρ f) k).
+Proof.
+  intros Hk. eapply (AW_bind_pure _ _ _ _ (fun fr => lo < fn_id fr)); [|exact Hk].
+  intros s a s1 H. unfold get_fun in H. destruct (assoc f ρ) as [[w|fr]|] eqn:E; try discriminate.
+  unfold ret in H. inversion H; subst. split; [reflexivity | eapply Hρf; eauto].
+Qed.
+
+Lemma ids_bounded ws ids : Forall (wb lo b) ws -> Forall2 has_id ws ids -> Forall (fun c => lo < c <= b) ids.
 Proof.
   intros F H. induction H as [|w i ws ids Hw _ IH]; [constructor|].
   inversion F; subst. constructor; [eapply wb_wid; eauto | apply IH; assumption].
@@ -218,13 +243,20 @@ Qed.
 
 Ltac bound :=
   match goal with
-  | H : wid ?w = Some ?i, Hw : wb b ?w |- ?i <= b => exact (wb_wid _ _ _ Hw H)
-  | H : exists w, In w _ /\ wid w = Some ?i |- ?i <= b =>
+  | H : wid ?w = Some ?i, Hw : wb lo b ?w |- lo < ?i <= b => exact (wb_wid _ _ _ _ Hw H)
+  | H : exists w, In w _ /\ wid w = Some ?i |- lo < ?i <= b =>
       let w := fresh "w" in let Hin := fresh "Hin" in let Hw := fresh "Hw" in
       destruct H as (w & Hin & Hw); simpl in Hin;
-      repeat (destruct Hin as [<- | Hin]; [refine (wb_wid _ _ _ _ Hw); assumption|]); contradiction
+      repeat (destruct Hin as [<- | Hin]; [refine (wb_wid _ _ _ _ _ Hw); assumption|]); contradiction
   end.
-Ltac phi := lazymatch goal with |- Φ _ => unfold Φ; simpl child_operations; repeat (constructor; [cbv beta; bound|]); try constructor | _ => idtac end.
+Ltac phi :=
+  lazymatch goal with
+  | |- Φ _ =>
+      unfold Φ; simpl child_operations; simpl extra_refs;
+      split; [repeat (constructor; [cbv beta; bound|]); try constructor
+             | repeat constructor; try assumption ]
+  | _ => idtac
+  end.
 
 Ltac aw_step :=
   first
@@ -234,9 +266,10 @@ Ltac aw_step :=
     | apply AW_bind_need_id; intros ? ?
     | apply AW_bind_need_ids; intros ? ?
     | apply AW_bind_pick; intros ? ?
-    | apply AW_new_literal
+    | apply AW_new_literal; lia
+    | apply AW_bind_get_fun; intros ? ?
     | apply AW_bind_alloc; intro
-    | apply AW_emit_scalar; [simpl; tauto | ]
+    | apply AW_emit_scalar; [lia | simpl; tauto | ]
     | apply AW_bind_gm; [apply Gm_lit_index | intro ]
     | apply AW_bind_gm; [apply Gm_put; [simpl; tauto | ] | intro ]
     | apply AW_bind_gm; [apply Gm_pure; solve [pure_tac] | intro ]
@@ -244,39 +277,41 @@ Ltac aw_step :=
     | match goal with |- AW _ _ (if ?x then _ else _) => destruct x end ].
 Ltac aw := cbv zeta; repeat aw_step.
 
-Lemma AW_do_binop c0 ids o x y : b <= c0 -> wb b x -> wb b y -> AW c0 ids (do_binop GG o x y).
+Lemma AW_do_binop c0 ids o x y : b <= c0 -> wb lo b x -> wb lo b y -> AW c0 ids (do_binop GG o x y).
 Proof.
   intros Hbc Hx Hy. unfold do_binop. aw; try phi;
     apply AW_ret; intros c Hc _; (eapply wb_mono; [|eassumption]); lia.
 Qed.
 
-Lemma AW_do_unop c0 ids u x : b <= c0 -> wb b x -> AW c0 ids (do_unop GG u x).
+Lemma AW_do_unop c0 ids u x : b <= c0 -> wb lo b x -> AW c0 ids (do_unop GG u x).
 Proof.
   intros Hbc Hx. unfold do_unop. aw; try phi;
     apply AW_ret; intros c Hc _; (eapply wb_mono; [|eassumption]); lia.
 Qed.
 
-Lemma AW_do_ifelse c0 ids x y z : b <= c0 -> wb b x -> wb b y -> wb b z -> AW c0 ids (do_ifelse GG x y z).
+Lemma AW_do_ifelse c0 ids x y z : b <= c0 -> wb lo b x -> wb lo b y -> wb lo b z -> AW c0 ids (do_ifelse GG x y z).
 Proof. intros Hbc Hx Hy Hz. unfold do_ifelse. aw; try phi. Qed.
 
 Lemma AW_generate_accessor c0 ids v id n :
-  b <= c0 -> In id ids -> Φ n -> wb b v -> AW c0 ids (generate_accessor v id n).
+  b <= c0 -> In id ids -> Φ n -> wb lo b v -> AW c0 ids (generate_accessor v id n).
 Proof.
   intros Hbc Hin Hn Hv. unfold generate_accessor. aw; try assumption;
-    apply AW_ret; intros c Hc Hi; try (simpl; apply Hi; exact Hin);
-    try (eapply wb_mono; [|exact Hv]; lia);
-    (apply wb_with_id; [apply Hi; exact Hin | eapply wb_mono; [|exact Hv]; lia]).
+    apply AW_ret; intros c Hc Hi; pose proof (Hi id Hin) as Hid;
+    first [ solve [simpl; lia]
+          | solve [eapply wb_mono; [|exact Hv]; lia]
+          | apply wb_with_id; [lia | eapply wb_mono; [|exact Hv]; lia] ].
 Qed.
 
-Lemma mk_input_AW c0 name party doc : forall t s w s1,
+Lemma mk_input_AW c0 name party doc : lo <= c0 -> forall t s w s1,
   c0 <= counter s -> mk_input name party doc t s = Ok (w, s1) ->
-  G Φ c0 s s1 /\ (exists id, wid w = Some id /\ c0 < id <= counter s1) /\ wb (counter s1) w.
+  G Φ c0 s s1 /\ (exists id, wid w = Some id /\ c0 < id <= counter s1) /\ wb lo (counter s1) w.
 Proof.
-  induction t as [[m bs]|elt IH size]; intros s w s1 Hc H.
+  intros Hl. induction t as [[m bs]|elt IH size]; intros s w s1 Hc H.
   - destruct m; simpl in H; try (unfold mbind, alloc, fail in H; discriminate H);
       unfold mbind, alloc, put, ret in H; cbn [counter store lits] in H; inversion H; subst; clear H;
       (split; [|split; [simpl; eexists; split; [reflexivity | lia] | simpl; lia]]);
-      (split; [simpl; lia|]); eexists [_]; (split; [reflexivity|]); (constructor; [|constructor]); simpl; (split; [lia | constructor]).
+      (split; [simpl; lia|]); eexists [_]; (split; [reflexivity|]); (constructor; [|constructor]); simpl;
+      (split; [lia | split; constructor]).
   - cbn [mk_input] in H. unfold mbind at 1 in H.
     destruct (mk_input name party doc elt s) as [[inner s']| |] eqn:E; try discriminate.
     destruct (IH _ _ _ Hc E) as (G1 & (id & Hw & Hid) & _).
@@ -285,7 +320,7 @@ Proof.
     unfold put, ret in H. inversion H; subst; clear H.
     split; [|split; [simpl; exists id; split; [reflexivity | lia] | simpl; lia]].
     eapply G_trans; [exact G1|]. split; [simpl; lia|]. eexists [_]. split; [reflexivity|].
-    constructor; [|constructor]. simpl. split; [destruct G1; lia | constructor].
+    constructor; [|constructor]. simpl. split; [destruct G1; lia | split; constructor].
 Qed.
 
 Lemma nth_wrap_In : forall vals n v, nth_wrap vals n = Some v -> In v vals.
@@ -302,16 +337,16 @@ Proof.
 Qed.
 
 Lemma Forall_combine_wb c (ks : list string) ws :
-  Forall (wb c) ws -> Forall (fun kv : string * wrap => wb c (snd kv)) (combine ks ws).
+  Forall (wb lo c) ws -> Forall (fun kv : string * wrap => wb lo c (snd kv)) (combine ks ws).
 Proof.
   intros F. revert ks. induction F as [|w ws Hw _ IH]; intros [|k ks]; simpl; constructor; auto.
 Qed.
 
-Lemma Forall_wb_mono c c' ws : c <= c' -> Forall (wb c) ws -> Forall (wb c') ws.
+Lemma Forall_wb_mono c c' ws : c <= c' -> Forall (wb lo c) ws -> Forall (wb lo c') ws.
 Proof. intros Hc F. eapply Forall_impl; [|exact F]. intros w. apply wb_mono. exact Hc. Qed.
 
 Lemma bind_partial_wb c params pos names ks all :
-  bind_partial params pos (combine names ks) = Ok all -> Forall (wb c) pos -> Forall (wb c) ks -> Forall (wb c) all.
+  bind_partial params pos (combine names ks) = Ok all -> Forall (wb lo c) pos -> Forall (wb lo c) ks -> Forall (wb lo c) all.
 Proof.
   intros H Hp Hk. destruct (bind_partial_spec _ _ _ _ H) as (tail & -> & F).
   apply Forall_app. split; [exact Hp|].
@@ -321,12 +356,15 @@ Proof.
 Qed.
 
 (* every right-hand side but k + x (whose literal operand is created on the way) *)
+Ltac newid Hi := simpl; match goal with |- lo < ?id <= _ => specialize (Hi id (or_introl eq_refl)); lia end.
+Ltac phinew := unfold Φ; simpl child_operations; simpl extra_refs; split; [eapply ids_bounded; eauto | repeat constructor; try assumption].
+
 Lemma eval_rhs_AW c0 r : b <= c0 -> (forall k a, r <> RRAdd k a) -> AW c0 [] (eval_rhs GG ρ r).
 Proof.
-  intros Hbc Hr. destruct r; cbn [eval_rhs].
-  - apply AW_new_literal.
-  - intros s w s1 [Hc _] H. destruct (mk_input_AW c0 _ _ _ _ _ _ _ Hc H) as (A & _ & B). auto.
-  - aw. constructor.
+  intros Hbc Hr. assert (Hl : lo <= c0) by lia. destruct r; cbn [eval_rhs].
+  - apply AW_new_literal. exact Hl.
+  - intros s w s1 [Hc _] H. destruct (mk_input_AW c0 _ _ _ Hl _ _ _ _ Hc H) as (A & _ & B). auto.
+  - aw. split; constructor.
   - aw. apply AW_do_binop; assumption.
   - aw. apply AW_do_unop; assumption.
   - aw. apply AW_do_ifelse; assumption.
@@ -336,18 +374,19 @@ Proof.
     destruct ws as [|first rest]; [apply AW_fail|].
     apply AW_bind_gm; [apply Gm_pure, (pure_same_go first (first :: rest))|]. intros same.
     destruct same; [|apply AW_fail]. aw.
-    + unfold Φ. simpl child_operations. eapply ids_bounded; eauto.
-    + apply AW_ret. intros c Hc Hi. simpl. apply Hi. left. reflexivity.
+    + phinew.
+    + apply AW_ret. intros c Hc Hi. newid Hi.
   - (* TupleNew *) aw.
-    + unfold Φ. simpl child_operations. eapply ids_bounded; [|eassumption]. repeat constructor; assumption.
-    + apply AW_ret. intros c Hc Hi. simpl. apply Hi. left. reflexivity.
+    + unfold Φ. simpl child_operations. simpl extra_refs. split; [|constructor].
+      eapply ids_bounded; [|eassumption]. repeat constructor; assumption.
+    + apply AW_ret. intros c Hc Hi. newid Hi.
   - (* NTupleNew *) aw.
-    + unfold Φ. simpl child_operations. eapply ids_bounded; eauto.
-    + apply AW_ret. intros c Hc Hi. apply wb_ntuple. split; [simpl; apply Hi; left; reflexivity|].
+    + phinew.
+    + apply AW_ret. intros c Hc Hi. apply wb_ntuple. split; [newid Hi|].
       eapply Forall_wb_mono; [|eassumption]. lia.
   - (* ObjectNew *) aw.
-    + unfold Φ. simpl child_operations. eapply ids_bounded; eauto.
-    + apply AW_ret. intros c Hc Hi. apply wb_object. split; [simpl; apply Hi; left; reflexivity|].
+    + phinew.
+    + apply AW_ret. intros c Hc Hi. apply wb_object. split; [newid Hi|].
       apply Forall_combine_wb. eapply Forall_wb_mono; [|eassumption]. lia.
   - (* Index *) apply AW_bind_get_wrap. intros x Hx. destruct x as [| | |vals it|]; try apply AW_fail.
     cbv zeta. destruct ((i <? 0) || (Z.of_nat (List.length vals) <=? i)); [apply AW_fail|].
@@ -362,28 +401,27 @@ Proof.
     apply AW_generate_accessor; [exact Hbc | left; reflexivity | phi |].
     apply wb_object in Hx. destruct Hx as [_ Hx]. rewrite Forall_forall in Hx.
     apply (Hx (k, v)). apply assoc_In. exact Ek.
-  - (* Map *) aw; try phi. apply AW_ret. intros c Hc Hi. simpl. apply Hi. left. reflexivity.
+  - (* Map *) aw; try phi. apply AW_ret. intros c Hc Hi. newid Hi.
   - (* Reduce *) aw; try phi.
-  - (* Zip *) aw; try phi. apply AW_ret. intros c Hc Hi. simpl. apply Hi. left. reflexivity.
-  - (* Unzip *) aw; try phi. apply AW_ret. intros c Hc Hi. simpl. apply Hi. left. reflexivity.
+  - (* Zip *) aw; try phi. apply AW_ret. intros c Hc Hi. newid Hi.
+  - (* Unzip *) aw; try phi. apply AW_ret. intros c Hc Hi. newid Hi.
   - (* Inner *) aw; try phi.
-  - (* Call *) apply AW_bind_gm; [apply Gm_pure, pure_get_fun|]. intro fr.
+  - (* Call *) apply AW_bind_get_fun. intros fr Hfr.
     apply AW_bind_get_wraps. intros ws Hws. apply AW_bind_get_wraps. intros ks Hks.
-    apply (AW_bind_pure _ _ _ _ (Forall (wb b))).
+    apply (AW_bind_pure _ _ _ _ (Forall (wb lo b))).
     + intros s all s1 H. destruct kwargs as [|k0 kr].
       * unfold ret in H. inversion H; subst. auto.
       * unfold lift in H.
         destruct (bind_partial (fn_params fr) ws (combine (map fst (k0 :: kr)) ks)) as [all'| |] eqn:Eb; inversion H; subst.
         split; [reflexivity|]. eapply bind_partial_wb; eauto.
-    + intros all Hall. aw.
-      * unfold Φ. simpl child_operations. eapply ids_bounded; eauto.
-      * unfold Φ. simpl child_operations. eapply ids_bounded; eauto.
+    + intros all Hall. aw; phinew.
 Qed.
 
 End Calc.
 
 (* ---- statements and programs *)
-Definition InvA (ρ : env) (s : tstate) : Prop := fresh_store s /\ ordered s /\ env_b ρ (counter s).
+Definition InvA (ρ : env) (s : tstate) : Prop :=
+  fresh_store s /\ ordered s /\ env_b ρ (counter s) /\ env_f ρ /\ lo <= counter s.
 
 Section Programs.
 Variable GG : genv.
@@ -392,57 +430,90 @@ Lemma ok_nil c s : c <= counter s -> ok c [] s.
 Proof. intros H. split; [exact H | constructor]. Qed.
 
 Lemma rhs_acy ρ r s w s1 :
-  env_b ρ (counter s) -> eval_rhs GG ρ r s = Ok (w, s1) -> grow_acy s s1 /\ wb (counter s1) w.
+  env_b ρ (counter s) -> env_f ρ -> lo <= counter s ->
+  eval_rhs GG ρ r s = Ok (w, s1) -> grow_acy s s1 /\ wb lo (counter s1) w.
 Proof.
-  intros Hρ H.
+  intros Hρ Hρf Hlo H.
   assert (Hcases : (forall k a, r <> RRAdd k a) \/ exists k a, r = RRAdd k a).
   { destruct r; try (left; intros k0 a0; discriminate). right. eexists. eexists. reflexivity. }
   destruct Hcases as [Hr | (k & a & ->)].
-  - destruct (eval_rhs_AW GG ρ (counter s) Hρ (counter s) r (Z.le_refl _) Hr s w s1 (ok_nil _ _ (Z.le_refl _)) H) as [Hg Hw].
+  - destruct (eval_rhs_AW GG ρ (counter s) Hρ Hρf Hlo (counter s) r (Z.le_refl _) Hr s w s1 (ok_nil _ _ (Z.le_refl _)) H) as [Hg Hw].
     split; [eapply G_acy; [|exact Hg]; lia | exact Hw].
   - cbn [eval_rhs] in H. unfold mbind at 1 in H. unfold get_wrap at 1 in H.
     destruct (assoc a ρ) as [[x|?]|] eqn:Ea; try discriminate H. unfold ret at 1 in H.
-    assert (Hx : wb (counter s) x) by (eapply Hρ; eauto).
+    assert (Hx : wb lo (counter s) x) by (eapply Hρ; eauto).
     destruct x as [[m bs] xi xv| | | |]; try discriminate H.
     destruct (numeric_base bs); [|discriminate H].
     unfold mbind at 1 in H. destruct (new_literal bs k s) as [[l s']| |] eqn:El; try discriminate H.
-    destruct (AW_new_literal (counter s) (counter s) [] bs k s l s' (ok_nil _ _ (Z.le_refl _)) El) as [G1 Hl].
+    destruct (AW_new_literal (counter s) (counter s) [] bs k Hlo s l s' (ok_nil _ _ (Z.le_refl _)) El) as [G1 Hl].
     assert (Hc : counter s <= counter s') by (destruct G1; assumption).
-    destruct (AW_do_binop GG (counter s') (counter s') [] OAdd _ l (Z.le_refl _)
-                (wb_mono _ _ Hc _ Hx) Hl s' w s1 (ok_nil _ _ (Z.le_refl _)) H) as [G2 Hw].
+    assert (Hlo' : lo <= counter s') by lia.
+    destruct (AW_do_binop GG (counter s') Hlo' (counter s') [] OAdd _ l (Z.le_refl _)
+                (wb_mono _ _ _ Hc _ Hx) Hl s' w s1 (ok_nil _ _ (Z.le_refl _)) H) as [G2 Hw].
     split; [|exact Hw].
     eapply grow_acy_trans; [eapply G_acy; [|exact G1]; lia | eapply G_acy; [|exact G2]; lia].
 Qed.
 
-Lemma template_of_wb : forall t s w s1, template_of t s = Ok (w, s1) -> wb (counter s1) w.
+Lemma template_of_wb : forall t s w s1, lo <= counter s -> template_of t s = Ok (w, s1) -> wb lo (counter s1) w.
 Proof.
-  induction t as [[m bs]|elt IH size]; intros s w s1 H.
+  induction t as [[m bs]|elt IH size]; intros s w s1 Hlo H.
   - destruct m; cbn [template_of] in H.
     + unfold mbind at 1 in H. destruct (new_literal bs 0 s) as [[w0 s0]| |] eqn:E; try discriminate.
       unfold ret in H. inversion H; subst.
-      destruct (AW_new_literal (counter s) (counter s) [] bs 0 s w s1 (ok_nil _ _ (Z.le_refl _)) E) as [_ Hw]. exact Hw.
+      destruct (AW_new_literal (counter s) (counter s) [] bs 0 Hlo s w s1 (ok_nil _ _ (Z.le_refl _)) E) as [_ Hw]. exact Hw.
     + unfold ret in H. inversion H; subst. exact I.
     + unfold ret in H. inversion H; subst. exact I.
   - cbn [template_of] in H. unfold mbind at 1 in H.
     destruct (template_of elt s) as [[e s0]| |]; try discriminate. unfold ret in H. inversion H; subst. exact I.
 Qed.
 
-(* parameters: argument records have no operands; each parameter's wrapper is bounded *)
-Lemma arg_node_acy s s1 : G arg_node (counter s) s s1 -> grow_acy s s1.
+Lemma template_of_counter : forall t s w s1, template_of t s = Ok (w, s1) -> counter s <= counter s1.
 Proof.
-  intros [H1 (new & E & F)]. split; [exact H1|]. exists new. split; [exact E|].
+  intros t s w s1 H. destruct (template_of_spec (counter s) t s w s1 (Z.le_refl _) H) as [[Hc _] _]. exact Hc.
+Qed.
+
+(* parameters: argument records have no operands and refer to the function being defined *)
+Definition arg_node_of (fid : Z) (n : ast) : Prop :=
+  match n with AArg _ f => f = fid | ALiteral _ _ => True | _ => False end.
+
+Lemma Gm_template_of fid c0 ids : forall t, Gm (arg_node_of fid) c0 ids (template_of t).
+Proof.
+  induction t as [[m bs]|elt IH size]; cbn [template_of].
+  - destruct m.
+    + apply Gm_bind; [apply Gm_new_literal; intros; exact I | intro; apply Gm_ret].
+    + apply Gm_ret.
+    + apply Gm_ret.
+  - apply Gm_bind; [exact IH | intro; apply Gm_ret].
+Qed.
+
+Lemma Gm_make_args fid c0 : forall ps ids, Gm (arg_node_of fid) c0 ids (make_args fid ps).
+Proof.
+  induction ps as [|[x t] ps IH]; intros ids; cbn [make_args]; [apply Gm_ret|].
+  apply Gm_bind; [apply Gm_template_of|]. intro tmpl.
+  apply Gm_alloc_bind. intro id.
+  apply Gm_bind; [apply Gm_pure, pure_lift|]. intro ty.
+  apply Gm_bind; [apply Gm_put; [left; reflexivity | reflexivity]|]. intros _.
+  apply Gm_bind; [apply IH|]. intro rest. apply Gm_ret.
+Qed.
+
+Lemma arg_node_acy fid s s1 : lo < fid -> G (arg_node_of fid) (counter s) s s1 -> grow_acy s s1.
+Proof.
+  intros Hfid [H1 (new & E & F)]. split; [exact H1|]. exists new. split; [exact E|].
   eapply Forall_impl; [|exact F]. intros e [A B]. split; [exact A|].
-  unfold acyclic_entry. destruct (r_node (snd e)); simpl in B; try contradiction; constructor.
+  unfold acyclic_entry. destruct (r_node (snd e)); simpl in B; try contradiction; split; try constructor.
+  - subst. exact Hfid.
+  - constructor.
 Qed.
 
 Lemma make_args_wb fid : forall ps s args s1,
-  make_args fid ps s = Ok (args, s1) -> Forall (fun a => wb (counter s1) (snd (snd a))) args.
+  lo <= counter s -> make_args fid ps s = Ok (args, s1) -> Forall (fun a => wb lo (counter s1) (snd (snd a))) args.
 Proof.
-  induction ps as [|[x t] ps IH]; intros s args s1 H.
+  induction ps as [|[x t] ps IH]; intros s args s1 Hlo H.
   - simpl in H. unfold ret in H. inversion H; subst. constructor.
   - cbn [make_args] in H. unfold mbind at 1 in H.
     destruct (template_of t s) as [[tmpl sa]| |] eqn:Et; try discriminate.
-    pose proof (template_of_wb _ _ _ _ Et) as Ht.
+    pose proof (template_of_wb _ _ _ _ Hlo Et) as Ht.
+    pose proof (template_of_counter _ _ _ _ Et) as Hca.
     unfold mbind at 1 in H. unfold alloc at 1 in H.
     unfold mbind at 1 in H. unfold lift at 1 in H. destruct (to_mir tmpl) as [ty| |]; try discriminate.
     unfold mbind at 1 in H. unfold put at 1 in H. unfold mbind at 1 in H.
@@ -453,19 +524,22 @@ Proof.
     { match type of Er with make_args _ _ ?st = _ =>
         destruct (make_args_spec fid ps (counter sa + 1) st rest s1 (Z.le_refl (counter sa + 1)) Er) as [[Hc _] _] end.
       exact Hc. }
-    constructor; [|eapply IH; exact Er]. cbn [snd].
+    constructor; [|eapply IH; [|exact Er]; simpl; lia]. cbn [snd].
     apply wb_with_id; [lia | eapply wb_mono; [|exact Ht]; lia].
 Qed.
 
 Lemma env_b_body args ρ c :
-  Forall (fun a => wb c (snd (snd a))) args -> env_b ρ c -> env_b (body_env args ρ) c.
+  Forall (fun a => wb lo c (snd (snd a))) args -> env_b ρ c -> env_b (body_env args ρ) c.
 Proof.
   intros Fa Hρ x w Hx. unfold body_env in Hx.
-  assert (Fr : Forall (fun a : Z * (string * wrap) => wb c (snd (snd a))) (rev args)).
+  assert (Fr : Forall (fun a : Z * (string * wrap) => wb lo c (snd (snd a))) (rev args)).
   { apply Forall_forall. intros a Ha. rewrite Forall_forall in Fa. apply Fa. apply in_rev. exact Ha. }
   induction Fr as [|a l Ha _ IH]; simpl in Hx; [eapply Hρ; eauto|].
   destruct (String.eqb x (fst (snd a))); [inversion Hx; subst; exact Ha | apply IH; exact Hx].
 Qed.
+
+Lemma env_f_body args ρ : env_f ρ -> env_f (body_env args ρ).
+Proof. intros H x fr Hx. apply assoc_body_env in Hx. eapply H; eauto. Qed.
 
 Theorem exec_acyclic : forall fuel ρ ss s ρ' s',
   InvA ρ s -> exec GG fuel ρ ss s = Ok (ρ', s') -> InvA ρ' s' /\ grow_acy s s'.
@@ -475,33 +549,38 @@ Proof.
   - simpl in H. unfold ret in H. inversion H; subst. split; [exact HI | apply grow_acy_refl].
   - cbn [exec] in H. unfold mbind at 1 in H.
     destruct (eval_rhs GG ρ r s) as [[w s1]| |] eqn:E; try discriminate.
-    destruct HI as (Hf & Ho & Hρ).
-    destruct (rhs_acy _ _ _ _ _ Hρ E) as [G1 Hw].
+    destruct HI as (Hf & Ho & Hρ & Hρf & Hlo).
+    destruct (rhs_acy _ _ _ _ _ Hρ Hρf Hlo E) as [G1 Hw].
     destruct (ordered_grow _ _ Hf Ho G1) as [Ho1 Hf1].
+    assert (Hc1 : counter s <= counter s1) by (destruct G1; assumption).
     assert (HI1 : InvA ((x, BWrap w) :: ρ) s1).
-    { split; [exact Hf1|]. split; [exact Ho1|]. intros y wy Hy. simpl in Hy.
-      destruct (String.eqb y x); [inversion Hy; subst; exact Hw|].
-      eapply wb_mono; [|eapply Hρ; eauto]. destruct G1; assumption. }
+    { split; [exact Hf1|]. split; [exact Ho1|]. split; [|split; [|lia]].
+      - intros y wy Hy. simpl in Hy.
+        destruct (String.eqb y x); [inversion Hy; subst; exact Hw|].
+        eapply wb_mono; [|eapply Hρ; eauto]. exact Hc1.
+      - intros y fr Hy. simpl in Hy. destruct (String.eqb y x); [discriminate Hy | eapply Hρf; eauto]. }
     destruct (IH _ _ _ _ _ HI1 H) as [HI2 G2]. split; [exact HI2 | eapply grow_acy_trans; eauto].
   - destruct (sdef_inversion _ _ _ _ _ _ _ _ _ _ _ _ H)
       as (args & s1 & ρb & s2 & child & t & cid & Ea & Eb & Er & Ew & Ert & Hm & Hp & Erest).
-    clear H. destruct HI as (Hf & Ho & Hρ).
+    clear H. destruct HI as (Hf & Ho & Hρ & Hρf & Hlo).
     set (fid := counter s + 1) in *.
+    assert (Hfid : lo < fid) by (unfold fid; lia).
     (* the id of the function, then the parameters *)
     assert (G0 : grow_acy s (after_alloc s)).
     { split; [simpl; lia|]. exists []. split; [reflexivity | constructor]. }
-    destruct (make_args_spec fid params fid (after_alloc s) args s1 (Z.le_refl _) Ea) as [Ga _].
-    assert (G1 : grow_acy (after_alloc s) s1) by (apply arg_node_acy; exact Ga).
+    assert (Ga : G (arg_node_of fid) fid (after_alloc s) s1).
+    { eapply (Gm_make_args fid fid params []); [|exact Ea]. split; [simpl; unfold fid; lia | constructor]. }
+    assert (G1 : grow_acy (after_alloc s) s1) by (eapply arg_node_acy; [exact Hfid | exact Ga]).
     assert (G01 : grow_acy s s1) by (eapply grow_acy_trans; eauto).
     destruct (ordered_grow _ _ Hf Ho G01) as [Ho1 Hf1].
     assert (Hc01 : counter s <= counter s1) by (destruct G01; assumption).
     assert (HI1 : InvA (body_env args ρ) s1).
-    { split; [exact Hf1|]. split; [exact Ho1|].
-      apply env_b_body; [eapply make_args_wb; eauto | eapply env_b_mono; eauto]. }
-    destruct (IH _ _ _ _ _ HI1 Eb) as [(Hf2 & Ho2 & Hρ2) G2].
+    { split; [exact Hf1|]. split; [exact Ho1|]. split; [|split; [apply env_f_body; exact Hρf | lia]].
+      apply env_b_body; [eapply make_args_wb; [|exact Ea]; simpl; lia | eapply env_b_mono; eauto]. }
+    destruct (IH _ _ _ _ _ HI1 Eb) as [(Hf2 & Ho2 & Hρ2 & Hρf2 & Hlo2) G2].
     assert (Hc12 : counter s1 <= counter s2) by (destruct G2; assumption).
     assert (Hc1 : fid <= counter s1) by (destruct G1 as [G1 _]; simpl in G1; exact G1).
-    (* the function record: no operands *)
+    (* the function record: no operands; it refers to its return operation and its argument records *)
     set (s3 := after_put s2 fid (TyName (mir_name t)) (AFunction f (map fst args) cid)) in *.
     assert (Ho3 : ordered s3).
     { intros k r0 H0 c Hc. unfold s3, after_put in H0. simpl in H0.
@@ -512,16 +591,24 @@ Proof.
     { intros k r0 H0. unfold s3, after_put in H0. simpl in H0. simpl.
       destruct (Z.eqb_spec k fid) as [->|Hne]; [lia | apply Hf2 in H0; exact H0]. }
     assert (HI3 : InvA ((f, BFun {| fn_id := fid; fn_ret := rt; fn_params := map fst params |}) :: ρ) s3).
-    { split; [exact Hf3|]. split; [exact Ho3|]. intros y wy Hy. simpl in Hy.
-      destruct (String.eqb y f); [discriminate Hy|]. eapply wb_mono; [|eapply Hρ; eauto]. simpl. lia. }
+    { split; [exact Hf3|]. split; [exact Ho3|]. split; [|split; [|simpl; lia]].
+      - intros y wy Hy. simpl in Hy.
+        destruct (String.eqb y f); [discriminate Hy|]. eapply wb_mono; [|eapply Hρ; eauto]. simpl. lia.
+      - intros y fr Hy. simpl in Hy. destruct (String.eqb y f); [inversion Hy; subst; simpl; exact Hfid | eapply Hρf; eauto]. }
     destruct (IH _ _ _ _ _ HI3 Erest) as [HI4 G4]. split; [exact HI4|].
+    (* what the function record refers to is new *)
+    assert (Hcid : lo < cid).
+    { assert (Hb : wb lo (counter s2) child) by (eapply Hρ2; eauto). destruct (wb_wid _ _ _ _ Hb Ew). assumption. }
+    assert (Hargids : Forall (fun c => lo < c) (map fst args)).
+    { destruct (make_args_spec fid params fid (after_alloc s) args s1 (Z.le_refl _) Ea) as [_ Hargs].
+      clear - Hargs Hfid. induction Hargs as [|a p l1 l2 (A1 & A2 & A3 & _) _ IHa]; simpl; constructor; auto. lia. }
     (* growth from s to s3: the entries of the parameters and the body, then the function record *)
     assert (G03 : grow_acy s s3).
     { destruct G01 as [A1 (n1 & E1 & F1)]. destruct G2 as [A2 (n2 & E2 & F2)].
       split; [simpl; lia|].
       exists ((fid, {| r_id := fid; r_ty := TyName (mir_name t); r_node := AFunction f (map fst args) cid |}) :: n2 ++ n1).
       split; [unfold s3, after_put; simpl; rewrite E2, E1, app_assoc; reflexivity|].
-      constructor; [simpl; split; [unfold fid; lia | constructor]|].
+      constructor; [simpl; split; [unfold fid; lia | split; [constructor | constructor; assumption]]|].
       apply Forall_app. split.
       - eapply Forall_impl; [|exact F2]. intros e [B1 B2]. split; [simpl; lia | exact B2].
       - eapply Forall_impl; [|exact F1]. intros e [B1 B2]. split; [simpl; lia | exact B2]. }
@@ -529,6 +616,7 @@ Proof.
 Qed.
 
 End Programs.
+End Lower.
 
 (* ---- down to the MIR *)
 From NadaV.Proofs Require Import CompileProofs C01Program.
@@ -564,10 +652,11 @@ Proof.
   destruct (existsb (has_no_id ρ) (p_outs p)) eqn:En; cbn [bind] in Hr; try discriminate Hr.
   destruct (compile (store s') [] couts) as [[m' fs']| |] eqn:Hc; cbn [bind fst snd] in Hr; try discriminate Hr.
   inversion Hr; subst m'; clear Hr.
-  assert (H0 : InvA [] init_state).
-  { split; [|split]; [intros k r; simpl; intros; discriminate | intros k r; simpl; intros; discriminate
-                      | intros x w Hx; simpl in Hx; discriminate]. }
-  destruct (exec_acyclic GG _ _ _ _ _ _ H0 Ex) as [(_ & Ho & _) _].
+  assert (H0 : InvA 0 [] init_state).
+  { split; [|split; [|split; [|split]]];
+      [intros k r; simpl; intros; discriminate | intros k r; simpl; intros; discriminate
+       | intros x w Hx; simpl in Hx; discriminate | intros x fr Hx; simpl in Hx; discriminate | simpl; lia]. }
+  destruct (exec_acyclic 0 GG _ _ _ _ _ _ H0 Ex) as [(_ & Ho & _) _].
   assert (Hent : forall k r, lookup k (store s') = Some r ->
                    forall o, In o (operands (e_op (entry_of r))) -> o < e_key (entry_of r)).
   { intros k r Hl o Hin. rewrite operands_entry_of in Hin. rewrite key_entry_of.
